@@ -187,9 +187,7 @@ func childMain(args []string) {
 		return
 	}
 	res.S1 = stateOf(k.Ch)
-	if mode != "library" {
-		res.UndoForeign, res.UndoMissing = undoLook(k.Ch, dir, 8)
-	}
+	res.UndoForeign, res.UndoMissing = undoLook(k.Ch, dir, 8)
 	write() // in case something below kills the process outright
 	if mode == "stage2" || mode == "stage2all" {
 		stage2(k, dir, bf, res, write, mode == "stage2all")
